@@ -2,20 +2,11 @@
 import json, os
 ROOT = os.path.dirname(os.path.dirname(os.path.abspath(__file__)))
 ALL = [f"C{i:02d}" for i in range(1, 21)]
-CLAIMED = {
-    "C13": dict(
-        text="Theorems about an executable Gallina model of labrea.pipeline (Pipeline linked list, __init__ normalisation, __add__ case by case, "
-             "__iter__, evaluate/transform, keys/validate) proved for all pipelines, all bracketings (no bound on the number of steps), all step "
-             "semantics (possibly failing) and all options: iter(p+q)=steps p++steps q, + associative on the object structure, empty pipeline is "
-             "a two-sided identity, (p+q).transform = q.transform after p.transform with failures, iteration order = application order, keys/explain/"
-             "validate of p+q = union. Tied to /repo on every run by a correspondence check (model evaluated by vm_compute vs labrea on the same "
-             "generated construction trees/options) plus the property's own oracle on the implementation. PARTIAL for the labrea.functions helpers: "
-             "their documented operand order is enumerated against the implementation (finite table x argument forms), not proved.",
-        note="Trusted: Coq kernel + vm_compute; hand-written model validated by correspondence; Python harness; helper table is an enumeration. "
-             "Assumes steps are deterministic functions; Identity step behaves as identity (Section hypotheses, checked by the correspondence).",
-        technique="Coq proof (induction on pipeline structure) + model/implementation correspondence by vm_compute",
-        design="5/C13"),
-}
+CLAIMED = {}
+for _f in sorted(os.listdir(os.path.join(ROOT, "harness", "props"))):
+    if _f.endswith(".claim.json"):
+        with open(os.path.join(ROOT, "harness", "props", _f)) as _fh:
+            CLAIMED[_f.split(".")[0].upper()] = json.load(_fh)
 def main():
     checks = []
     for pid in ALL:
